@@ -36,7 +36,7 @@ from ..drivers import docutils_doctree, parse_warnings  # noqa: E402
 POOL = [
     ("a", "a"), ("A", "A"), ("a-1", "a-1"), ("a 1", "a 1"), ("b", "b"), ("a!", "a!"), ("`a`", "a"), ("*a* b", "a b"),
     ("a_b", "a_b"), ("é", "é"), ("中", "中"), ("-a", "-a"), ("![i](u) a", " a"), ("<b>x</b> a", "x a"),
-    ("a  b", "a  b"), ("a-1-1", "a-1-1"), ("[a](http://u) `b`", "a b"), ("a.b, c", "a.b, c"),
+    ("a  b", "a  b"), ("a-1-1", "a-1-1"), ("[a](http://u) `b`", "a b"), ("a.b, c", "a.b, c"), ("!!!", "!!!"),
 ]
 
 
@@ -93,7 +93,8 @@ class _Base(System):
 
 def check_links(text, doc_slugs, settings, viol, bad):
     """clause (4): a document extended with [](#slug) for every slug resolves each link to its own heading"""
-    links = "".join(f"L{i} [](#{s})\n\n" for i, s in enumerate(doc_slugs) if s and re.fullmatch(r"[\w\-一-鿿]+", s))
+    # (an all-punctuation title has the EMPTY slug: its link is '[](#)')
+    links = "".join(f"L{i} [](#{s})\n\n" for i, s in enumerate(doc_slugs) if s is not None and re.fullmatch(r"[\w\-一-鿿]*", s))
     if not links:
         return 0
     doc, warn = docutils_doctree(text + "\n" + links, settings)
@@ -339,5 +340,51 @@ class FuncSystem(_Base):
         return Obs(digest=(fname, tuple(slugs), len(ws)), nontrivial=len(set(bases)) < len(bases) or ref is None, violations=viol[:3])
 
 
+DOTTED = {
+    "pkg_a": ("mcx.models.slugmods.pkg_a.slugify", lambda t: "A-" + t.replace(" ", "_")),
+    "pkg_b": ("mcx.models.slugmods.pkg_b.slugify", lambda t: "B-" + t.replace(" ", "_")),
+    "test": ("myst_parser.config.main._test_slug_func", lambda t: t[::-1]),
+    "default": (None, gh),
+}
+
+
+class FuncHistorySystem(_Base):
+    """a configured slug function replaces the default in EVERY parse: sequences of differently configured parses in one process"""
+
+    name = "slugfunc-history"
+    fork_per_case = True
+    chunk = 1
+    description = ("every sequence of <= 3 parses in one fresh process, each configured with a slug function given as a dotted path "
+                   "(two modules exporting a function of the SAME name, the bundled test function, the default)")
+
+    def bounds(self):
+        return {"parses": 3, "functions": len(DOTTED)}
+
+    def rule(self):
+        return "one case = one sequence of configurations (fresh process); non-trivial = two different functions are used"
+
+    def cases(self):
+        for n in (1, 2, 3):
+            for seq in itertools.product(list(DOTTED), repeat=n):
+                yield list(seq)
+
+    def run(self, seq):
+        text = "# a b\n\n## a b\n\n[](#x)\n"
+        viol, dig = [], []
+        for pos, name in enumerate(seq):
+            dotted, ref = DOTTED[name]
+            settings = {"myst_heading_anchors": 2}
+            if dotted:
+                settings["myst_heading_slug_func"] = dotted
+            doc, warn = docutils_doctree(text, settings)
+            slugs = [s for _, s, _, _ in headings(doc)]
+            exp = model_slugs(["a b", "a b"], ref)
+            dig.append(tuple(slugs))
+            if slugs != exp:
+                viol.append(violation("custom-func", {"clause": "custom-func", "func": name, "kind": "history"},
+                                      f"parse #{pos} of {seq} configured with {dotted or 'the default'}: slugs {slugs}, expected {exp}", text=text, sequence=seq))
+        return Obs(digest=tuple(dig), nontrivial=len(set(seq)) > 1, violations=viol[:2], transitions=len(seq), validated=len(seq))
+
+
 def systems(tier):
-    return [TitleSystem(tier), LevelSystem(tier), DepthSystem(tier), FuncSystem(tier)]
+    return [TitleSystem(tier), LevelSystem(tier), DepthSystem(tier), FuncSystem(tier), FuncHistorySystem(tier)]
